@@ -33,7 +33,10 @@ func lookupNode[T any](urlTree *URLTree[T], url string) lookupNodeResult[T] {
 	foundWildcardPath := ""
 	urlPath := ""
 	for _, urlPart := range splitURL {
-		if currentNode.WildcardChild != nil {
+		// A wildcard written in the path (`host.com/*`) covers path segments only: it must not
+		// take a further host label (`host.com.other`) for a path segment.
+		if currentNode.WildcardChild != nil &&
+			!isHostLabelBehindPathWildcard(currentNode, urlPart) {
 			foundWildcardNode = currentNode.WildcardChild
 			foundWildcardPath = wildcardPath(urlPath, foundWildcardNode)
 			if urlPart.Value == wildcard {
@@ -109,6 +112,13 @@ func lookupNode[T any](urlTree *URLTree[T], url string) lookupNodeResult[T] {
 
 	// No match found, return the node that was found with noMatch
 	return buildLookupNodeResult(false, currentNode, params, urlPath)
+}
+
+// isHostLabelBehindPathWildcard tells whether part is a further host label of the looked-up URL
+// while the wildcard child of node (a host node) was declared in the path, as in `host.com/*`
+// looked up with `host.com.other/...`.
+func isHostLabelBehindPathWildcard[T any](node *Node[T], part urlPart) bool {
+	return part.IsPartOfHost && node.IsPartOfHost && !node.WildcardChild.IsPartOfHost
 }
 
 // wildcardPath returns the declared pattern of a wildcard node hanging off the
